@@ -222,6 +222,15 @@ def s15_4_version_alignment_verify(ctx, P):
                   len(rej) >= 2 and gs and gs2, function=b.path, guards=[site(b, g) for g, _ in rej])
 
 
+def s15_8_hash_strength_verify(ctx, P):
+    """R-sib: every non-forwarding caller of VerifyingKey::verify applies check_signature_hash_strength before the primitive (detached,
+    certification, binding and INLINE message verification judge a signature alike)."""
+    nonfw, _ = sink_functions(ctx)
+    for b in nonfw:
+        rdom(ctx, '%s:S15-8:hash-strength:%s' % (P, b.path), b, call_blocks(b, SINK), [r'call:.*check_signature_hash_strength$'],
+             'check_signature_hash_strength dominates the primitive in %s' % b.path.split('::')[-1], rule='R-sib')
+
+
 SIGNERS = [CFG + 'SignatureConfig::sign_certification_third_party', CFG + 'SignatureConfig::sign_subkey_binding',
            CFG + 'SignatureConfig::sign_primary_key_binding', CFG + 'SignatureConfig::sign_key', CFG + 'SignatureHasher::sign']
 
